@@ -14,6 +14,7 @@ SCALES = [0.5, 1.0, 3.0, 8.0, 10.0, 20.0, 37.5]
 
 class Check(PropertyCheck):
     id = "C11"
+    thorough_mult = 3
     lean_modules = ["Svgbob.Properties.C11"]
     assumptions = [
         "whole-pipeline model tied to the implementation end to end (bytes) at the scales of the property",
